@@ -41,12 +41,12 @@ open CifModel Model.Ustream Model.Fill Spec.Eol
 
 /-- C08_bytes_to_scanner APPLIED to UTF-8 bytes `a CR LF é CR b` + a sequence truncated by the end of the file, a 3-byte byte buffer,
     requests of 2 units on the stream side and of 4 on the fill side: the theorem gives the scanner's view without running the stream -/
-example : seen [4, 4, 4, 4, 4, 4] ⟨deliveries (runCalls utf8 acceptAll 0xFFFD 3
+example : seen [4, 4, 4, 4, 4, 4, 4, 4] ⟨deliveries (runCalls utf8 acceptAll 0xFFFD 3
       (initStream utf8 3 [0x61, 0x0D, 0x0A, 0xC3, 0xA9, 0x0D, 0x62, 0xE2, 0x82] false) [2, 2, 2, 2, 2, 2, 2, 2])⟩
     = [0x61, 0x0A, 0xE9, 0x0A, 0x62, 0xFFFD] := by
   rw [C08_bytes_to_scanner utf8 C08_utf8_incremental acceptAll acceptAll_accepting 0xFFFD 3 (by decide)
     [0x61, 0x0D, 0x0A, 0xC3, 0xA9, 0x0D, 0x62, 0xE2, 0x82] false [2, 2, 2, 2, 2, 2, 2, 2] (by decide) (by decide)
-    [4, 4, 4, 4, 4, 4] (by decide) (by decide)]
+    [4, 4, 4, 4, 4, 4, 4, 4] (by decide) (by decide)]
   decide
 
 /-- WITNESS (finding M3): a "converter" that consumes everything and delivers nothing meets `Laws` … -/
